@@ -600,12 +600,23 @@ fn multiline_string_doc(trivia: &Trivia, segments: &[StrSegment]) -> Doc {
     let mut docs = vec![pretty::text("\"\"\"")];
     for line in lines {
         docs.push(pretty::hardline());
-        docs.push(pretty::text(protect_trailing_spaces(line)));
+        // An empty content line is part of the string's value: mark it so `collapse_blanks` (which
+        // runs over the whole laid-out text) neither merges two of them nor drops one.
+        if line.is_empty() {
+            docs.push(pretty::text(STRING_BLANK_LINE));
+        } else {
+            docs.push(pretty::text(protect_trailing_spaces(line)));
+        }
     }
     docs.push(pretty::hardline());
     docs.push(pretty::text("\"\"\""));
     pretty::concat(docs)
 }
+
+/// Stand-in for an empty content line of a multi-line string in the laid-out text, turned back into
+/// an empty line by [`collapse_blanks`]. A lone backslash cannot be a rendered line otherwise: every
+/// backslash the printer emits inside a string starts a two-character escape, and it is not code.
+const STRING_BLANK_LINE: &str = "\\";
 
 /// Escape one text fragment of a multi-line string (no trailing-space handling — that is applied per
 /// line). Tabs and carriage returns are escaped (a literal `\r` would be normalised to `\n`, a
@@ -1091,6 +1102,12 @@ fn collapse_blanks(text: &str) -> String {
     let mut lines: Vec<&str> = Vec::new();
     let mut prev_blank = true; // seeded true so leading blank lines are dropped
     for line in text.lines() {
+        // An empty line inside a multi-line string is content, not layout: always kept.
+        if line.trim() == STRING_BLANK_LINE {
+            lines.push("");
+            prev_blank = false;
+            continue;
+        }
         let blank = line.trim().is_empty();
         if blank && prev_blank {
             continue;
